@@ -47,6 +47,7 @@ structure ModCfg where
   uri : Option String         -- HasIO: automatic communicator
   scan : List Name            -- Pinata: names of the modules scanModules yields
   delay : Nat                 -- duration of the first poll
+  writeFail : List (String × String) := []   -- start-up faults: `write_<p>` raises an exception of that class
 deriving Repr, Inhabited
 
 structure Cfg where
@@ -302,10 +303,36 @@ def startup (cfg : Cfg) (fuel : Nat) : St :=
 
 /-! ### poll thread prologue and the start events -/
 
+/-- `SECoPError` and its subclasses among the exception classes the fault injection raises (frappy/errors.py) -/
+def isSecop (cls : String) : Bool :=
+  cls == "HardwareError" || cls == "CommunicationFailedError" || cls == "SilentCommunicationFailedError"
+
+/-- a block of code: the events it logs and the exception (class) that leaves it, if any -/
+abbrev Block := List Ev × Option String
+
+/-- statements in sequence: an exception leaving one of them skips the rest -/
+def blocks : List Block → Block
+  | [] => ([], none)
+  | (evs, some e) :: _ => (evs, some e)
+  | (evs, none) :: rest => (evs ++ (blocks rest).1, (blocks rest).2)
+
+/-- body of the `for pname in list(self.writeDict)` loop of `writeInitParams` (modulebase.py:846-862): the value is
+popped and `write_<p>` is called inside `try`; a `SECoPError` is logged (`except SECoPError`), any other exception is
+logged with its traceback (`except Exception`); in both arms nothing leaves the loop body -/
+def writeOne (c : ModCfg) (p : String) : Block :=
+  match c.writeFail.lookup p with
+  | none => ([Ev.write c.name p], none)                 -- wfunc(value) returns
+  | some cls =>
+    if isSecop cls then ([Ev.write c.name p], none)     -- except SECoPError as e: self.log.error / debug
+    else ([Ev.write c.name p], none)                    -- except Exception: self.log.error(formatException())
+
+/-- `Module.writeInitParams` (modulebase.py:839-862) of the module object `c`, for every outcome of its `write_` methods -/
+def writeInitParams (c : ModCfg) : Block := blocks (c.writes.map (writeOne c))
+
 /-- what the poll thread of `t` does before it enters its loop (modulebase.py:726-749) -/
 def prologue (st : St) (t : Name) : List Ev :=
   let ms := members st t
-  ms.flatMap (fun m => (cfgOf st m).writes.map (Ev.write m)) ++
+  ms.flatMap (fun m => (writeInitParams { cfgOf st m with name := m }).1) ++
   (ms.filter (fun m => (cfgOf st m).poll)).map Ev.firstpoll ++ [Ev.rounddone t]
 
 def threadsOf (st : St) : List Name := st.modules.filter (fun m => !(members st m).isEmpty)
